@@ -493,13 +493,71 @@ fn batch_case_sizes<P: G>(len: usize, sizes: &'static str) -> Box<dyn Case> {
     })
 }
 
+/// The same statement and proof submitted twice in one call under DIFFERENT transcript contexts (one of them the context the
+/// proof was made under): each copy is replayed on its own transcript, so the copy under the foreign context draws other
+/// challenges than the genuine one and the batch is refused
+fn identical_members_case<P: G>(cfg: Cfg) -> Box<dyn Case> {
+    case(format!("{}/{}/identical-members-different-contexts", P::NAME, cfg.key()), move |_v| {
+        fg::clear_intern();
+        let mut res = CaseResult::new("explored");
+        let wit = Wit::default_for(&cfg);
+        let built = build_cached::<P>(&cfg, &wit).honest();
+        let (ctx_a, ctx_b) = (contexts()[0], contexts()[4]);
+        let proof = lib_prove_honest(&built, &ctx_a, &mut HRng::chacha(5));
+        if !verify_observed_one(&built.statement, &proof, &ctx_a, VerifyAction::VerifyOnly).is_ok() {
+            res.outcome = "honest-proof-not-accepted(skipped)".into();
+            return res;
+        }
+        for (name, ctxs) in [("genuine,foreign", vec![ctx_a, ctx_b]), ("foreign,genuine", vec![ctx_b, ctx_a]), ("genuine,genuine,foreign", vec![ctx_a, ctx_a, ctx_b])] {
+            res.transitions += 1;
+            let sts = vec![built.statement.clone(); ctxs.len()];
+            let proofs: Vec<_> = ctxs.iter().map(|_| P::proof_clone(&proof)).collect();
+            merlin::observe::start();
+            let mut ts: Vec<merlin::Transcript> = ctxs.iter().map(|c| c.transcript()).collect();
+            let r = catch(|| P::verify(&mut ts, &sts, &proofs, VerifyAction::VerifyOnly));
+            let trace = merlin::observe::take();
+            res.executions += 1;
+            res.validated += 1;
+            // per caller transcript (in creation order): its challenge draws
+            let mut order: Vec<u64> = Vec::new();
+            let mut per: BTreeMap<u64, Vec<Vec<u8>>> = BTreeMap::new();
+            for e in &trace {
+                if let Op::New { .. } = e.op {
+                    if order.len() < ctxs.len() {
+                        order.push(e.tid);
+                    }
+                }
+                if let Op::Challenge { out, .. } = &e.op {
+                    per.entry(e.tid).or_default().push(out.clone());
+                }
+            }
+            let draws: Vec<Vec<Vec<u8>>> = order.iter().map(|t| per.get(t).cloned().unwrap_or_default()).collect();
+            if matches!(r, Ok(Ok(_))) {
+                res.violate(format!("{}/verdict", name), "a proof presented under a transcript context it was not made under was accepted (next to a copy under its own context)");
+            }
+            let genuine = ctxs.iter().position(|c| *c == ctx_a).unwrap();
+            for (i, c) in ctxs.iter().enumerate() {
+                if *c == ctx_b {
+                    *res.outcome_counter("foreign-context-copies") += 1;
+                    if draws[i].is_empty() {
+                        res.violate(format!("{}/member{}", name, i), "no challenge was drawn from the transcript of the copy under the foreign context (its transcript was not replayed)");
+                    } else if draws[i] == draws[genuine] {
+                        res.violate(format!("{}/member{}", name, i), "the copy under the foreign context draws the same challenges as the copy under the genuine context");
+                    }
+                }
+            }
+        }
+        res
+    })
+}
+
 pub fn run(rep: &mut Report) {
     rep.rule = "configuration lattice x roles {prover, verifier} x every (datum, challenge) pair: (1) trace binding -- the multiset of data \
                 absorbed into the caller's transcript before each of the 3+k challenge draws contains every datum that must precede it \
                 (context label/message, H, each G_k, N, T, M, each commitment, each promise, A, L_j/R_j up to that round, A1, B); (2) \
                 functional dependence -- each single-datum perturbation through the public API changes every challenge drawn after \
                 the datum and none before; the same with the identity element as first commitment of an aggregate; (3) context binding; batches of 3 and 300 (and of 2 and 3 in which a later member is the largest): replacing one member's context changes exactly \
-                that member's challenges"
+                that member's challenges; the same statement and proof twice in one call under the genuine and a foreign context"
         .into();
     let tier = rep.tier;
     let mut cases: Vec<Box<dyn Case>> = Vec::new();
@@ -514,6 +572,10 @@ pub fn run(rep: &mut Report) {
     for len in [3usize, 300] {
         cases.push(batch_case::<F>(len));
         cases.push(batch_case::<RistrettoPoint>(len));
+    }
+    for cfg in [Cfg::new(2, 1, 1, 1), Cfg::new(8, 2, 2, 2), Cfg::new(64, 1, 2, 1)] {
+        cases.push(identical_members_case::<F>(cfg));
+        cases.push(identical_members_case::<RistrettoPoint>(cfg));
     }
     for sizes in ["larger-second", "larger-last"] {
         for len in [2usize, 3] {
